@@ -509,14 +509,12 @@ def case_arith(ctx, case):
             # consistency that should hold at least: world coordinates and connectors scale alike
             k3 = np.array((f['vals'] * 3)[:3] if f['shape'] == 's' else f['vals'][:3], dtype=float)
             want = voxel_world(x) * k3 if op == 'mul' else voxel_world(x) / k3
-            if units_prefix(y) == units_prefix(x):
-                ctx.oracle(close_arr(voxel_world(y), want),
-                           f'VoxelNeuron {op} {f}: world coordinates not scaled like the connectors', case)
-            else:
-                ctx.oracle(close_arr(voxel_world(y), want),
-                           f'VoxelNeuron {op} {f}: to_compact changed the prefix of the voxel size ({x.units!r} -> '
-                           f'{y.units!r}) but offset/connectors stay in the old prefix', case,
-                           signature=f'VoxelNeuron.{dunder}/to_compact-prefix-change/offset-not-rescaled')
+            # the voxel size keeps its SI prefix (navis 881c0e3: no to_compact — offset and connectors live in that unit)
+            ctx.oracle(units_prefix(y) == units_prefix(x),
+                       f'VoxelNeuron {op} {f}: the prefix of the voxel size changed ({x.units!r} -> {y.units!r}) while offset and '
+                       f'connectors stay in the old one', case)
+            ctx.oracle(close_arr(voxel_world(y), want),
+                       f'VoxelNeuron {op} {f}: world coordinates not scaled like the connectors ({x.units!r} -> {y.units!r})', case)
     else:
         ctx.oracle(ans.get('phys') == '1', f'{CLS[kind]} {op} {f}: coordinates and connectors not shifted by the same '
                                            f'vector, or radii / units touched (in={xin} out={out})', case)
@@ -574,11 +572,8 @@ def case_convert(ctx, case):
         ctx.oracle(y is None, 'convert_units on a dimensionless neuron did not raise', case)
         return
     if y is None:
-        sig = None
-        if kind == 'T' and not x.is_isometric:
-            sig = 'TreeNeuron.convert_units/per-axis-units/raises'
-        ctx.oracle(False, f'{CLS[kind]}.convert_units({tname!r}) raised {type(err).__name__}: {err} for units {x.units!r}',
-                   case, signature=sig)
+        # skeletons with per-axis units convert too (navis 549685a; before: 'requires 4 multipliers')
+        ctx.oracle(False, f'{CLS[kind]}.convert_units({tname!r}) raised {type(err).__name__}: {err} for units {x.units!r}', case)
         return
     conv1 = kind == 'V' and close_arr(np.asarray(x.units_xyz.to(to).magnitude, dtype=float), 1.0)
     sig = 'VoxelNeuron.convert_units/unit-and-size-wrong' if kind == 'V' and not conv1 else None
@@ -636,7 +631,7 @@ def case_map(ctx, case):
         # IEEE noise, not modelled — the correspondence is skipped there, the physical oracle below is not
         um0 = fr(x.units_xyz.magnitude[0]) * Fraction(10) ** unit_exp(x.units_xyz.units)
         q = phys / um0
-        dd = max(8 - (len(str(int(q))) - 1 if q >= 1 else 0), 0)
+        dd = max(8 - (len(str(int(abs(q)))) - 1 if abs(q) >= 1 else 0), 0)
         yv = q * 10 ** dd
         tie = abs((yv - math.floor(yv)) - Fraction(1, 2)) < Fraction(1, 10 ** 6)
     if tie:
@@ -645,16 +640,14 @@ def case_map(ctx, case):
         ctx.corr('ok', ans.get('corr'), f"map_units({spec!r}) on {x.units!r}: impl={impl} model={ans.get('model')}", case)
     if v is None:
         ok = bool(x.units.dimensionless) or not x.is_isometric
-        sig = 'map_units/non-positive-length/math-domain-error' if (not ok and phys is not None and phys <= 0) else None
-        ctx.oracle(ok, f'map_units({spec!r}) raised on a neuron with isometric length units {x.units!r}'
-                       + (' (a length of zero or below: round_smart calls math.log10 on it; the plain number passes through)' if sig else ''),
-                   case, signature=sig)
+        # lengths of zero or below are mapped too (navis 0b634c2; before, round_smart raised a math domain error)
+        ctx.oracle(ok, f'map_units({spec!r}) raised on a neuron with isometric length units {x.units!r}', case)
         return
     if phys is not None:
         um = fr(x.units_xyz.magnitude[0]) * Fraction(10) ** unit_exp(x.units_xyz.units)
         ratio = phys / um
         # round_smart keeps at least max(8 - digits, 0) decimals: bound 0.5·10^-d relative to the ratio, or exact
-        n_int = len(str(int(ratio))) - 1 if ratio >= 1 else 0
+        n_int = len(str(int(abs(ratio)))) - 1 if abs(ratio) >= 1 else 0
         bound = Fraction(1, 2) / Fraction(10) ** max(8 - n_int, 0) + abs(ratio) * Fraction(1, 2 ** 40)
         ctx.oracle(abs(fr(v) - ratio) <= bound, f'map_units({spec!r}) on {x.units!r} = {v}: not the physical length '
                                                f'(expected {float(ratio)})', case)
